@@ -1,9 +1,9 @@
 CONSTANTS
   Positions = {"lis_ctx", "lis_set", "clu", "cm", "ext", "sf", "sfa", "exta"}
   Endpoints = {"full", "mosnconfig", "allrouters", "allclusters", "alllisteners", "router", "cluster", "listener"}
-  MaxOps = 4
+  MaxOps = 2
   ArrayLen = 3
-  Defects = {}
+  Defects = {"ArrayLastOnly"}
 SPECIFICATION Spec
-INVARIANTS NoLeak DumpIsPure EmitCase
+INVARIANTS NoLeak
 CHECK_DEADLOCK FALSE
